@@ -286,6 +286,7 @@ func C10(r *core.Run) {
 	if len(conc) > 0 && r.OnlyCase < 0 && hookHits["sessions.jar.lookup"] == 0 {
 		r.Broken("hook point sessions.jar.lookup was never hit: worker not built with -tags verif?")
 	}
+	c10E1(r)
 	r.JudgeRaces(core.ParseRaceLogs(filepath.Join(r.WorkDir, "race-")))
 	min := (nSeq + nConc) * 9 / 10
 	if r.OnlyCase >= 0 {
